@@ -34,6 +34,15 @@ CHECKS = {
         "(frame: only rows containing the channel are written, each from its own v and parameters).",
    note=TRUST + "Module.init_states (pandas row selection) is checked on the implementation, not modelled in Lean. Known finding F4b: "
         "NaN at the removable singularities."),
+ "C17": dict(cat="proof", ref="DESIGN.md §4 C17",
+   technique="Lean 4 theorems over ℝ on re-translated transforms (incl. constructor fields) + hand-modelled combinators; Float/jit correspondence",
+   text="Sigmoid/Softplus/NegSoftplus/Affine: bounds for all real x, monotonicity (strict on the unclipped region), both round trips "
+        "on the exactly stated unclipped regions, with proved counterexamples beyond the clip; ChainTransform (fold), "
+        "MaskedTransform (where), ParamTransform (zipWith) round-trip/frame/pointwise theorems on the hand model. The real "
+        "transforms are run eagerly and under jit on clip thresholds, random doubles in [-1e6,1e6], random bounds, chains, "
+        "masks and pytrees and compared with the model and with the Spec predicate (bounds, monotone, conditioning-aware round trip).",
+   note=TRUST + "Combinators are hand-modelled (tied by correspondence). Rounding is sampled. Known findings F11 (round trips saturate "
+        "beyond the clip) and N6 (softplus inverse cancellation); N5 (NegSoftplus bound sign) was fixed."),
 }
 
 def main():
